@@ -85,7 +85,11 @@ def run(tier, seed, only=None):
             # ... and a tube dictionary may carry (unused) wingbox airfoil arrays, e.g. when it was copied from a wingbox study
             tube_data = dict(s, fem_origin=0.25, **{k_: sw_key[k_] for k_ in sw_key if k_.startswith("data_")})
             for fo, sfo in [(v_, dict(s, fem_origin=v_)) for v_ in (0.0, 0.35, 0.625, 1.0)] + [("wingbox with a fem_origin key", sw_key), ("wingbox", sw_nokey),
-                                                                                           ("tube 0.25 with airfoil data keys", tube_data)]:
+                                                                                           ("tube 0.25 with airfoil data keys", tube_data),
+                                                                                           # the *geometry* reference axis (chord scaling, twist) is another key of the same dictionary:
+                                                                                           # the panel force still acts at the panel quarter chord
+                                                                                           ("0.35 with ref_axis_pos = 0.5", dict(s, fem_origin=0.35, ref_axis_pos=0.5)),
+                                                                                           ("0.25 with ref_axis_pos = 0", dict(s, fem_origin=0.25, ref_axis_pos=0.0))]:
                 lt = SymComp("transfer.load_transfer", "LoadTransfer", surface=sfo)
                 cn_ = SymComp("structures.compute_nodes", "ComputeNodes", surface=sfo)
                 rep.encode(type(cn_.comp))
